@@ -152,6 +152,9 @@ func (bs *backends) compare(ctx context.Context, qs []askedQuery, bnd []time.Tim
 				if len(all) > bound {
 					run.Failures = append(run.Failures, fmt.Sprintf("backend %s unbounded: %d records although MaxRecords is %d (write batch %d)", b.name, len(all), maxRec, batch))
 				}
+				if len(b.errs) > 0 {
+					run.Failures = append(run.Failures, fmt.Sprintf("backend %s errors while rotating: %s", b.name, strings.Join(b.errs, "; ")))
+				}
 				return
 			}
 			for _, aq := range qs {
